@@ -71,11 +71,12 @@ func c10Plan(r *driver.Rand, mon string, par, n int) *driver.Plan {
 
 func c10Gen(r *driver.Rand, thorough bool) *driver.Plan {
 	mon := driver.Pick(r, c10Monoids...)
-	par := driver.Pick(r, 1, 2, 3, 4, 8)
+	par := driver.Pick(r, 1, 2, 3, 4, 8, 9, 16)
 	n := r.Intn(c10MaxN(mon) + 1)
 	if r.Chance(1, 3) {
 		n = r.Intn(par + 1) // shorter than the worker count, incl. empty
 	}
+	n = min(n, c10MaxN(mon))
 	p := c10Plan(r, mon, par, n)
 	p.Cap = driver.Pick(r, 0, 0, 1, 3)
 	if r.Chance(1, 2) {
